@@ -448,6 +448,16 @@ def gen_s3(item):
             bp, sc = ladder(k)
             progress({"stage": "S3", "op": what})
             events.append(observe_db(bp, 2 * k + 1, sc, [], kind))
+        elif what == "pkbad":                      # documented refusal: scores of another length
+            bp = present(rng, rand_structure(rng, 12, 4) or [[0, 3], [1, 2]])
+            events.append(observe_pk(bp, [[1] * (len(bp) + 1)], [], kind))
+        elif what == "pkladder":                   # four pairs that all cross, equal scores: 4! solutions, orders 0..3
+            events.append(observe_pk(present(rng, ladder(4)[0]), [], [], kind))
+        elif what == "dbshort":                    # a strand one base too short
+            bp = present(rng, rand_structure(rng, 12, 4) or [[0, 3], [1, 2]])
+            events.append(observe_db(bp, max(max(p) for p in bp), [], [], kind))
+        elif what == "fsempty":                    # a strand without any base pair
+            events.append(observe_fs([0, 0, 1, 2, 2, 2], [], [], []))
         elif what == "parse":
             s = rand_notation(rng)
             events.append({"op": "parse", "s": s, "obs": observe_parse(s)})
@@ -675,6 +685,11 @@ def run(ctx):
     ctx.nontrivial += nontrivial
     ctx.log(f"S2-knot: {ncases} cases through pseudoknots / dot_bracket / base_pairs_from_dot_bracket: {classes}")
     mid = _parse_states([texts[len(texts) // 2]])[0]
+    for t in texts[len(texts) // 2:len(texts) // 2 + 400]:          # a case with a pseudoknot and several solutions
+        st = _parse_states([t])[0]
+        if len(st["res"]["pk"]["val"]) >= 2 and len(st["inp"]["bp"]) >= 4:
+            mid = st
+            break
     ctx.sample({"s2_knot_case": mid["inp"], "expected_rows": mid["res"]["pk"]["val"],
                 "expected_notations": ["".join(s) for s in mid["res"]["db"]["val"]]})
 
@@ -714,6 +729,8 @@ def run(ctx):
             plan[ctx.rng.randrange(plan_len)] = "big"
         if k < 4:
             plan[ctx.rng.randrange(plan_len)] = ["ladder30", "ladder31", "ladder29", "ladder5"][k]
+        elif k < 8:                        # one call of each kind the guards below ask for
+            plan[ctx.rng.randrange(plan_len)] = ["pkbad", "pkladder", "dbshort", "fsempty"][k - 4]
         titems.append({"seed": ctx.rng.randrange(1 << 30), "plan": plan, "max_pairs": 9 if quick else 11,
                        "big_pairs": 18 if quick else 22})
     tres = helpers.run_pool(ctx, "harness.drivers.x02:gen_s3", titems, stage="S3", item_timeout=600)
